@@ -286,6 +286,22 @@ def D23():
     return holds, f"class Color(str, Enum): convert(Color.RED, Color) -> {a!r}; into_data(Color.RED, Union[int, Color]) -> {b!r}"
 
 
+def D29():
+    import pane
+    class E(enum.Enum):
+        A = 1.0
+        B = 2.5
+    def leaf(v):
+        try:
+            pane.from_data(v, E)
+        except pane.ConvertError as e:
+            return ('tree', e.tree.actual, type(e.tree.actual).__name__, str(e))
+        return ('accepted',)
+    r = leaf(2)
+    holds = r[0] == 'tree' and r[1] == 2 and r[2] == 'int' and '`2`' in r[3] and '2.0' not in r[3]
+    return holds, f"from_data(2, Enum over 1.0 / 2.5): the leaf records {r[1]!r} of type {r[2]}; message {r[3]!r}"
+
+
 def D27():
     import pane
     T = t.TypeVar('T')
